@@ -586,4 +586,73 @@ theorem runConn_project (bodies : Nat → List Item) (evs : List (Nat × CapAns)
     runConn bodies evs k = runSteps (bodies k) (project k evs) := by
   simp [runConn, runSteps, foldl_connStep]
 
+/-! ### what is reserved -/
+
+/-- the reservations the code must make for a chunk of `len` bytes when its successive polls
+send `sents` bytes: always `min(remaining, CHUNK_SIZE)` -/
+def expectedReserves (len : Nat) : List Nat → List Nat
+  | [] => []
+  | s :: r => min len chunkSize :: expectedReserves (len - s) r
+
+theorem sendChunk_reserves (chunk : Bytes) (sched : List CapAns) :
+    (sendChunk chunk sched).polls.map (·.reserved) =
+      expectedReserves chunk.length ((sendChunk chunk sched).polls.map (·.sent)) := by
+  induction sched generalizing chunk with
+  | nil => simp [sendChunk, expectedReserves]
+  | cons a rest ih =>
+    cases a with
+    | closed => simp [sendChunk, expectedReserves]
+    | err => simp [sendChunk, expectedReserves]
+    | cap c =>
+      by_cases hemp : (chunk.drop (min chunk.length c)).isEmpty = true
+      · rw [sendChunk_cap_last _ _ _ hemp]
+        simp [expectedReserves]
+      · rw [sendChunk_cap_more _ _ _ hemp]
+        simp only [List.map_cons, expectedReserves, ih, List.length_drop]
+
+theorem sendChunk_reserved_le (chunk : Bytes) (sched : List CapAns) :
+    ∀ p ∈ (sendChunk chunk sched).polls, p.reserved ≤ chunk.length := by
+  induction sched generalizing chunk with
+  | nil => simp [sendChunk]
+  | cons a rest ih =>
+    cases a with
+    | closed => simp [sendChunk]
+    | err => simp [sendChunk]
+    | cap c =>
+      by_cases hemp : (chunk.drop (min chunk.length c)).isEmpty = true
+      · rw [sendChunk_cap_last _ _ _ hemp]
+        intro p hp; simp at hp; subst hp; exact Nat.min_le_left _ _
+      · rw [sendChunk_cap_more _ _ _ hemp]
+        intro p hp
+        simp only [List.mem_cons] at hp
+        cases hp with
+        | inl h => subst h; exact Nat.min_le_left _ _
+        | inr h =>
+          have := ih (chunk.drop (min chunk.length c)) p h
+          simp only [List.length_drop] at this; omega
+
+theorem sendBody_reserved_le (items : List Item) (sched : List CapAns) :
+    ∀ p ∈ (sendBody items sched).polls, ∃ bs, Item.chunk bs ∈ items ∧ p.reserved ≤ bs.length := by
+  induction items generalizing sched with
+  | nil => simp [sendBody]
+  | cons it items ih =>
+    cases it with
+    | err => simp [sendBody]
+    | chunk bs =>
+      simp only [sendBody]
+      split
+      · intro p hp
+        obtain ⟨b, hb, hle⟩ := ih sched p hp
+        exact ⟨b, List.mem_cons_of_mem _ hb, hle⟩
+      · split
+        · intro p hp
+          exact ⟨bs, List.mem_cons_self .., sendChunk_reserved_le bs sched p hp⟩
+        · intro p hp
+          simp only [List.mem_append] at hp
+          cases hp with
+          | inl h => exact ⟨bs, List.mem_cons_self .., sendChunk_reserved_le bs sched p h⟩
+          | inr h =>
+            obtain ⟨b, hb, hle⟩ := ih _ p h
+            exact ⟨b, List.mem_cons_of_mem _ hb, hle⟩
+
 end ActixModel.H2
